@@ -28,8 +28,11 @@ CFG = dict(
                  "no Windows reserved handle, ReleaseIPs called with addresses of one block, ClaimAffinity/ReleaseAffinity of exactly one block",
                  "randomBlockGenerator's start index and Go map iteration order are inputs (universally quantified in the theorems)",
                  "blocks claimed less than one minute ago are never reclaimed by another host (EmptyBlockMinReclaimAge branch of findUsableBlock is outside the model)",
-                 "main theorems: the clients run on pairwise distinct hosts, each sequential, crash = abandon the operation and go on with the next "
-                 "(two processes acting for ONE host concurrently are covered by the refutation theorem and the known finding)"],
+                 "theorems c22_one_confirmed_owner / c22_block_affinity_matches_claim / c22_release_only_if_empty (pinned and repaired code): the clients "
+                 "run on pairwise distinct hosts; crash = abandon the operation and go on with the next",
+                 "theorems c22_*_same_host (repaired code, fx = true): NO hypothesis on the hosts - any number of processes per host",
+                 "oracle clause 'a block naming h has an affinity object (h,c)' is applied to cases whose clients act for distinct hosts "
+                 "(refuted for same-host processes: c22_named_block_has_affinity_same_host_refuted); not a theorem"],
 )
 
 def classify(line):
